@@ -504,5 +504,7 @@ package nfs
 //@ spec mkWriteVerf
 //@   props C07 C11
 //@   allocates cell:[8]byte
+//@   modifies clockres
+//@   ensures [W4-instance-verf] clockres == 1 @C07
 //@   loop 0 invariant i <= 8
 //@   loop 0 decreases 8 - i
